@@ -14,7 +14,8 @@
 (*  Mode = "big"      (model checking): run-length texts of up to a million bytes.               *)
 EXTENDS Tokens, TLC, Json, Randomization
 
-CONSTANTS Mode, MaxLen, NA
+CONSTANTS Mode, MaxLen, NA,
+          SteerOverlapBytes   \* TRUE while finding C19-a stands (see NewSnippet)
 
 Ch(tok, filters, exact) == [tok |-> tok, filters |-> filters, exact |-> exact]
 \* the regular expression of the regex tokenizer: \w+|[^\w\s]+
@@ -69,8 +70,12 @@ Chains == <<
   Ch(<<"regex", <<91, 48, 45, 57, 93, 43, 124>>, "09">>, <<>>, TRUE),                          \* 37  [0-9]+|
   Ch(<<"regex", <<120, 42>>, "x">>, <<>>, TRUE),                                               \* 38  x*
   Ch(<<"regex", <<91, 97, 45, 122, 93, 42>>, "az">>, << <<"lower">>, <<"removelong", 3>> >>, TRUE),   \* 39  [a-z]* + filters
-  Ch(<<"regex", <<92, 119, 42>>, "w">>, << <<"lower">>, <<"stemmer">> >>, FALSE) >>            \* 40  \w* + stemmer, offsets only
-SnippetChains == {6, 7, 12, 15, 18, 19, 23, 24, 25, 26, 27, 30, 31, 33}
+  Ch(<<"regex", <<92, 119, 42>>, "w">>, << <<"lower">>, <<"stemmer">> >>, FALSE),              \* 40  \w* + stemmer, offsets only
+  \* overlapping tokens whose end offsets DECREASE from one token to the next (a, ab, abc, b, ...): snippet chains
+  Ch(<<"ngram", 1, 3, FALSE>>, << <<"lower">> >>, TRUE),                                       \* 41
+  Ch(<<"ngram", 1, 4, FALSE>>, << <<"lower">> >>, TRUE),                                       \* 42
+  Ch(<<"ngram", 2, 4, FALSE>>, << <<"lower">>, <<"asciifold">> >>, TRUE) >>                    \* 43
+SnippetChains == {6, 7, 12, 15, 18, 19, 23, 24, 25, 26, 27, 30, 31, 33, 41, 42, 43}
 
 VARIABLES text, done
 gvars == <<text, done>>
@@ -107,7 +112,7 @@ RECURSIVE ExactPrefix(_, _)
 ExactPrefix(fs, k) == IF k > Len(fs) \/ fs[k][1] \in {"stemmer", "splitcompound"} THEN SubSeq(fs, 1, k - 1) ELSE ExactPrefix(fs, k + 1)
 ExactOf(ch) == Ch(ch.tok, ExactPrefix(ch.filters, 1), TRUE)
 Splits(ch) == \E k \in 1..Len(ch.filters) : ch.filters[k][1] = "splitcompound"
-SnippetChainSeq == <<6, 7, 12, 15, 18, 19, 6, 18, 23, 24, 25, 26, 27, 30, 31, 33, 23, 25>>
+SnippetChainSeq == <<6, 7, 12, 15, 18, 19, 6, 18, 23, 24, 25, 26, 27, 30, 31, 33, 23, 25, 41, 42, 43, 41>>
 NewSnippet ==
   /\ Mode = "snippets" /\ ~done
   /\ \E r \in {Vec(0)} :
@@ -122,7 +127,13 @@ NewSnippet ==
            \* (lower-cased: the snippet generator looks a token up by its lower-cased text; chains 24 and 31 do not lower-case)
            terms == IF r[3] % 2 = 0 THEN <<MapText(term(4), Lower)>> ELSE <<MapText(term(4), Lower), MapText(term(6), Lower)>>
            max == (<<1, 2, 3, 5, 8, 30>>)[1 + (r[8] % 6)]
-       IN  IF LongestToken(t, exact) > max THEN TRUE
+           \* C19-a (recorded): with overlapping tokens whose end offsets decrease (chains 41..43) a matched token
+           \* of more than max_num_chars BYTES leaves its highlight outside the fragment (to_html panics); while
+           \* that stands these chains keep every token within max_num_chars bytes
+           tooLong == IF SteerOverlapBytes /\ ci \in {41, 42, 43}
+                      THEN \E k \in 1..Len(toks) : toks[k][2] - toks[k][1] > max
+                      ELSE LongestToken(t, exact) > max
+       IN  IF tooLong THEN TRUE
            ELSE PrintT(<<"SN", ToJson([text |-> t, chain |-> ci, terms |-> terms, max |-> max])>>)
   /\ done' = TRUE /\ UNCHANGED text
 
